@@ -34,6 +34,7 @@ type World struct {
 	NoInline map[string]bool
 	InterestingTypes []types.Type
 	escaped  map[string]bool // heap-name prefixes (F:T.path) whose address escapes
+	ghostModSets map[*ssa.Function]map[string]bool
 }
 
 func shortPkgPath(path string) string {
